@@ -1,0 +1,23 @@
+// Copyright 2019 The Scriggo Authors. All rights reserved.
+// Use of this source code is governed by a BSD-style
+// license that can be found in the LICENSE file.
+
+//go:build verif
+
+package compiler
+
+var simTokenChanCap = -1
+
+// SetSimTokenChanCap sets the capacity of the channel between the lexer and
+// the parser; a negative value restores the default.
+func SetSimTokenChanCap(n int) {
+	simTokenChanCap = n
+}
+
+// simTokens returns the channel between the lexer and the parser.
+func simTokens(tokens chan token) chan token {
+	if simTokenChanCap < 0 {
+		return tokens
+	}
+	return make(chan token, simTokenChanCap)
+}
